@@ -520,7 +520,7 @@ package priority
 //@   modifies content(dsc.tactic), content(dsc.actual), content(dsc.inputs), dsc.uncrowded, anyelems(dsc.uncrowded), dsc.useful, gDivErr, gInfl, gInflP, gClock, gClosedIn, gOutClosed, gIn, gInN, gOutNP, gPendSet, gPendP, gIntStopped
 
 //@ func Opts.isValid
-//@   ensures [*] (result == nil) <==> (opts.Divider != nil && opts.HandlersQuantity != 0 && len(opts.Inputs) != 0)
+//@   ensures [* C01 C15] (result == nil) <==> (opts.Divider != nil && opts.HandlersQuantity != 0 && len(opts.Inputs) != 0)
 
 // prepare builds the tables of the discipline; a divider fault at creation is reported and
 // configurations in which some configured priority gets no handler are rejected (C15).
